@@ -214,6 +214,51 @@ static void setup_lattice(Runner &r, const Tier &t) {
     };
 }
 
+static std::vector<LCase> g_lcs;
+// ---- one neighbour with sequence-order constraints (collision.order, sameCluster) or an exclusion glyph on the neighbour
+static void setup_lattice_seq(Runner &r, const Tier &t) {
+    g_lcs.clear(); g_lfonts = { "Awami_test.ttf", gen_dir() + "/s_full.ttf" }; g_lgids.clear(); g_lat = t.thorough ? 31 : 21;
+    for (size_t f = 0; f < g_lfonts.size(); ++f) { FaceCache fc; gr_face *face = fc.get(g_lfonts[f], gr_face_preloadAll); std::vector<unsigned short> gids; if (face) { const graphite2::GlyphCache &gc = static_cast<const graphite2::Face*>(face)->glyphs(); std::set<unsigned short> seen;
+            std::vector<std::string> tx = f == 0 ? corpus_items("awami_tests.txt", 60, true) : std::vector<std::string>{ "a\xCC\x81\xCC\x80 b c" };
+            for (auto &x : tx) { gr_segment *s = gr_make_seg(nullptr, face, 0, nullptr, gr_utf8, x.c_str(), utf8_count(x), f == 0 ? 1 : 0); if (!s) continue; for (const gr_slot *q = gr_seg_first_slot(s); q; q = gr_slot_next_in_segment(q)) { unsigned short g = gr_slot_gid(q); const graphite2::BBox &b = gc.getBoundingBBox(g);
+                    if (gc.check(g) && b.xa > b.xi && b.ya > b.yi && seen.insert(g).second) { bool sub = gc.numSubBounds(g) > 0; size_t nsub = 0; for (auto h : gids) if (gc.numSubBounds(h) > 0) ++nsub; if (gids.size() < (t.thorough ? 8u : 5u) && (sub ? nsub < 3 : gids.size() - nsub < (t.thorough ? 5u : 3u))) gids.push_back(g); } } gr_seg_destroy(s); } }
+        g_lgids.push_back(gids);
+        for (int a = 0; a < int(gids.size()); ++a) for (int b = 0; b < int(gids.size()); ++b) for (int l = 0; l < 4; ++l) for (int m = 0; m < 2; ++m) for (int o : { 0, 1, 5 }) for (int dir = 0; dir < 2; ++dir) for (int af = 0; af < 2; ++af) for (int sq = 0; sq < 14; ++sq) { if (!t.thorough && (o == 5 && sq >= 7)) continue; g_lcs.push_back({ int(f), a, b, l, m, o, 0, dir, af, sq }); } }
+    r.ncases = g_lcs.size(); r.case_alarm_s = 120; r.shard_init = [](int) { g_fc = new FaceCache; };
+    r.describe = [](uint64_t i) { const LCase &c = g_lcs[i]; JObj o; o.kv("font", g_lfonts[c.font]).kv("target_gid", g_lgids[c.font][c.tg]).kv("neighbour_gid", g_lgids[c.font][c.ng]).kv("limit", c.limit).kv("margin", c.margin ? 20 : 0).kv("offset_index", c.off).kv("shift_index", c.sh).kv("dir", c.dir).kv("is_after", c.after).kv("sequence_variant", c.ng2).kv("neighbour_origins", "lattice " + std::to_string(g_lat) + "x" + std::to_string(g_lat)); return o; };
+    r.body = [](uint64_t i, ShardCtl &ctl) {
+        using namespace graphite2; const LCase &c = g_lcs[i]; gr_face *face = g_fc->get(g_lfonts[c.font], gr_face_preloadAll); if (!face) return;
+        const char *tx = c.font == 0 ? "\xD8\xA8\xD8\xA8\xD8\xA8" : "abc"; gr_segment *gs = gr_make_seg(nullptr, face, 0, nullptr, gr_utf8, tx, 3, c.font == 0 ? 1 : 0); if (!gs) return;
+        Segment *seg = static_cast<Segment*>(gs); if (!seg->hasCollisionInfo() || seg->slotCount() < 2) { gr_seg_destroy(gs); return; }
+        Slot *t = seg->first(), *n = t->next(); const GlyphCache &gc = seg->getFace()->glyphs(); unsigned short tg = g_lgids[c.font][c.tg], ng = g_lgids[c.font][c.ng];
+        t->setGlyph(seg, tg); n->setGlyph(seg, ng); while (t->firstChild()) { Slot *ch = t->firstChild(); t->removeChild(ch); ch->attachTo(NULL); } if (n->attachedTo()) { n->attachedTo()->removeChild(n); n->attachTo(NULL); }
+        const BBox &tb = gc.getBoundingBBox(tg), &nb = gc.getBoundingBBox(ng); float span = (tb.xa - tb.xi) + (nb.xa - nb.xi) + (tb.ya - tb.yi) + (nb.ya - nb.yi); if (span <= 0) span = 1000;
+        Rect limit(Position(LIM[c.limit][0], LIM[c.limit][1]), Position(LIM[c.limit][2], LIM[c.limit][3])); float margin = c.margin ? 20.f : 0.f, mwt = c.margin ? 10.f : 0.f; Position off(OFFS[c.off][0], OFFS[c.off][1]), sh(SHS[c.sh][0], SHS[c.sh][1]);
+        SlotCollision *ct = seg->collisionInfo(t), *cn = seg->collisionInfo(n); cn->setFlags(0); cn->setShift(Position(0, 0)); cn->setOffset(Position(0, 0)); { static const uint16 ORD[6] = { 1, 2, 4, 8, 16, 32 }; int sq = c.ng2; if (sq < 12) { ct->setSeqClass(1); ct->setSeqProxClass(sq >= 6 ? 2 : 0); ct->setSeqOrder(ORD[sq % 6]); cn->setSeqClass(sq >= 6 ? 2 : 1); cn->setSeqAboveXoff(30); cn->setSeqAboveWt(12); cn->setSeqBelowXlim(20); cn->setSeqBelowWt(7); cn->setSeqValignHt(40); cn->setSeqValignWt(5); cn->setExclGlyph(0); }
+            else { ct->setSeqClass(0); ct->setSeqOrder(0); cn->setExclGlyph(g_lgids[c.font][(c.ng + 1) % g_lgids[c.font].size()]); cn->setExclOffset(Position(sq == 12 ? 60.f : -60.f, sq == 12 ? 0.f : 40.f)); } }
+        const float tol = 0.01f; Position acc0 = off + sh; bool inside0 = acc0.x >= limit.bl.x - tol && acc0.x <= limit.tr.x + tol && acc0.y >= limit.bl.y - tol && acc0.y <= limit.tr.y + tol;
+        t->origin(Position(0, 0));
+        for (int ix = 0; ix < g_lat; ++ix) for (int iy = 0; iy < g_lat; ++iy) {
+            float nx = (ix - g_lat / 2) * span / g_lat, ny = (iy - g_lat / 2) * span / g_lat; n->origin(Position(nx, ny));
+            ShiftCollider coll(NULL); if (!coll.initSlot(seg, t, limit, margin, mwt, sh, off, c.dir, NULL)) continue;
+            bool collides = false; if (!coll.mergeSlot(seg, n, cn, cn->shift(), c.after != 0, c.ng2 < 12, collides, false, NULL)) continue;
+            bool isCol = false; Position res = coll.resolve(seg, isCol, NULL); ctl.counters[0] = ctl.counters[0] + 1;
+            const char *why = nullptr; char detail[200] = "";
+            for (int a = 0; a < 4 && !why && inside0; ++a) if (const char *w = zones_invariants(coll._ranges[a], nullptr, -1e30f, 1e30f)) why = w;
+            if (!why && !isCol && inside0) { Position acc(off.x + res.x, off.y + res.y); ctl.counters[1] = ctl.counters[1] + 1;
+                if (acc.x < limit.bl.x - tol || acc.x > limit.tr.x + tol || acc.y < limit.bl.y - tol || acc.y > limit.tr.y + tol) { why = "shift moves the accumulated collision offset outside the limit rectangle"; snprintf(detail, sizeof detail, "offset+shift=(%g,%g)", acc.x, acc.y); } }
+            if (!why && !isCol) { Oct to = oct_at(tb, gc.getBoundingSlantBox(tg), res.x, res.y); float worst = -1e30f; unsigned ns = gc.numSubBounds(ng);
+                if (ns == 0) worst = penetration(to, oct_at(nb, gc.getBoundingSlantBox(ng), nx, ny)); else for (unsigned k = 0; k < ns; ++k) worst = std::max(worst, penetration(to, oct_at(gc.getSubBoundingBBox(ng, uint8(k)), gc.getSubBoundingSlantBox(ng, uint8(k)), nx, ny)));
+                if (!within_reach(coll, nb, nx - coll._origin.x, ny - coll._origin.y)) worst = -1e30f; else ctl.counters[2] = ctl.counters[2] + 1;
+                if (collides) ctl.counters[3] = ctl.counters[3] + 1;
+                // "within reach": only a neighbour the target could touch inside its limit is relevant; the collider skips the others and leaves the target where it is
+                if (worst > 0.05f) { why = "glyph reported as resolved still overlaps the neighbour"; snprintf(detail, sizeof detail, "neighbour at (%g,%g) shift (%g,%g) penetration %.3f collides=%d", nx, ny, res.x, res.y, worst, int(collides)); } }
+            if (why) { JObj o; o.kv("kind", "collider_lattice").kv("sequence_variant", c.ng2).kv("why", why).kv("detail", detail).kv("font", g_lfonts[c.font]).kv("target_gid", tg).kv("neighbour_gid", ng).kv("dir", c.dir).kv("dir_ltr", (c.dir & 1) == 0).kv("limit", c.limit).kv("limit_zero_area", limit.bl.x == limit.tr.x && limit.bl.y == limit.tr.y).kv("offset_index", c.off).kv("offset_x", double(off.x)).kv("shift_index", c.sh).kv("is_after", c.after).kv("margin", double(margin)); bool zero = limit.bl.x == limit.tr.x && limit.bl.y == limit.tr.y; if (lattice_first(why, zero, c.font, 4 + (c.ng2 >= 12))) report_fail(i, o); else ctl.counters[4] = ctl.counters[4] + 1; ix = iy = g_lat; }
+        }
+        ctl.cls(uint64_t(tg) * 70001 + ng * 31 + c.limit); (void)ct; gr_seg_destroy(gs);
+    };
+}
+
 // ---- two neighbours: target at the origin, neighbour 1 and neighbour 2 each on their own lattice (the product of both lattices is enumerated)
 static std::vector<LCase> g_lc2; static int g_lat2 = 7;
 static void setup_lattice2(Runner &r, const Tier &t) {
@@ -305,6 +350,7 @@ int main(int argc, char **argv) {
     { Sub s; s.name = "end_to_end"; s.setup = setup_e2e; s.budget_quick = 120; s.budget_thorough = 900; s.counter_names = { "resolves", "limit_clause_checked", "neighbour_pairs_checked", "kern_resolves", "kern_limit_clause_checked" }; s.extra = extra_e; subs.push_back(s); }
     { Sub s; s.name = "collider_lattice"; s.setup = setup_lattice; s.budget_quick = 140; s.budget_thorough = 1200; s.counter_names = { "arrangements", "limit_clause_checked", "verdict_checked", "with_collision", "repeat_failures_not_reported" }; s.extra = extra_l; subs.push_back(s); }
     { Sub s; s.name = "collider_lattice2"; s.setup = setup_lattice2; s.budget_quick = 150; s.budget_thorough = 1500; s.counter_names = { "arrangements", "limit_clause_checked", "verdict_checked", "with_collision", "repeat_failures_not_reported" }; s.extra = extra_l; subs.push_back(s); }
+    { Sub s; s.name = "collider_lattice_seq"; s.setup = setup_lattice_seq; s.budget_quick = 120; s.budget_thorough = 900; s.counter_names = { "arrangements", "limit_clause_checked", "verdict_checked", "with_collision", "repeat_failures_not_reported" }; s.extra = extra_l; subs.push_back(s); }
     { Sub s; s.name = "kern_lattice"; s.setup = setup_kern; s.budget_quick = 100; s.budget_thorough = 600; s.counter_names = { "arrangements", "limit_clause_checked", "unused", "kern_resolves", "repeat_failures_not_reported" }; s.extra = extra_l; subs.push_back(s); }
     return check_main(argc, argv, "C17", subs);
 }
